@@ -39,7 +39,17 @@ def cin_value_moved_into_constructor(spec, m):
     return False
 
 
+def _components_under(bp):
+    for b, _d in _bp_nodes(bp):
+        for it in b["items"]:
+            if it[0] in ("pre", "post", "wrap", "obs", "route", "fallback"):
+                yield it[1]
+
+
 def request_scoped_override_with_inherited_mws(spec, m):
+    def uses(x, t):
+        return any(tt.split("<")[0] == t for (_c, tt) in m.closure(x)) or any(tt.split("<")[0] == t for (tt, _m) in m.comp(x)[1].get("ins", []))
+
     def walk(bp, mws_here):
         mws_here = list(mws_here)
         for it in bp["items"]:
@@ -53,6 +63,10 @@ def request_scoped_override_with_inherited_mws(spec, m):
                                  or any(tt.split("<")[0] == t for (tt, _m) in m.comp(x)[1].get("ins", []))]
                         # (an observer is spliced into the graph of every fallible component of the pipeline)
                         if len(users) >= 2 or any(x in spec["obs"] for x in users):
+                            return True
+                        # one inherited user is enough when a component of the nested blueprint needs the type too
+                        # (directly, or through a request-scoped value it shares with the inherited middleware)
+                        if users and any(uses(x, t) for x in _components_under(it[2])):
                             return True
                 if walk(it[2], mws_here):
                     return True
